@@ -157,12 +157,12 @@ func scenarioC08(rc *RunCtx) *Violation {
 	}
 	// profile: a package marked "sideEffects": false is imported for its side effects only
 	// (import "pkg") from several files: each such import draws a warning of its own
-	if g.n(6) == 0 && len(p.Pkgs) > 0 {
+	if g.n(4) == 0 && len(p.Pkgs) > 0 {
 		pk := p.Pkgs[g.n(len(p.Pkgs))]
 		pk.SideEffects = 1
 		n := 0
 		for _, m := range p.Mods {
-			if m.Deleted || !isJS(m.Kind) || m.Kind == "cjs" || n >= 4 || g.n(2) == 0 {
+			if m.Deleted || !isJS(m.Kind) || m.Kind == "cjs" || n >= 6 || g.n(3) == 0 {
 				continue
 			}
 			dup := false
